@@ -15,6 +15,10 @@ impl<'a> Gen<'a> {
 		Gen { tape, pos: 0 }
 	}
 
+	pub fn tape(&self) -> &'a [u8] {
+		self.tape
+	}
+
 	pub fn consumed(&self) -> usize {
 		self.pos
 	}
